@@ -256,6 +256,19 @@ func c28MaxPerAS(ifs []c28Iface) int {
 	return m
 }
 
+// c28SharedNumber reports whether the (loop-free) interface list has more than two entries in ASes that share an AS
+// number but are different ASes (different ISD): only an implementation that identifies ASes by ISD-AS keeps it.
+func c28SharedNumber(ifs []c28Iface) bool {
+	cnt := map[addr.AS]int{}
+	for _, f := range ifs {
+		cnt[f.IA.AS()]++
+		if cnt[f.IA.AS()] > 2 {
+			return c28MaxPerAS(ifs) <= 2
+		}
+	}
+	return false
+}
+
 // c28SegsKey renders everything the forwarding path carries (without the AS names, which are not on the wire).
 func c28SegsKey(segs []c28Seg) string {
 	var sb strings.Builder
